@@ -511,12 +511,15 @@ func reqText(rs []req) string {
 }
 
 type tokCheck struct {
-	copies int    // copy() calls out of the token list
-	clamp  string // CNT-1: first copy that lets the available tokens clamp a declared count
-	a      *analysis
-	memo   map[*ssa.Parameter]string // "" = guarded, else description of the first unguarded use
-	busy   map[*ssa.Parameter]bool
-	uses   int
+	substAt string             // TOK-2: first constant substituted for a missing token
+	guards  int                // TOK-2: length tests examined
+	seenTok map[ssa.Value]bool // TOK-2 traversal
+	copies  int                // copy() calls out of the token list
+	clamp   string             // CNT-1: first copy that lets the available tokens clamp a declared count
+	a       *analysis
+	memo    map[*ssa.Parameter]string // "" = guarded, else description of the first unguarded use
+	busy    map[*ssa.Parameter]bool
+	uses    int
 }
 
 // unguarded returns a description of the first indexing of token list v (or of a
@@ -622,6 +625,229 @@ func (t *tokCheck) param(p *ssa.Parameter, depth int) string {
 	return d
 }
 
+// ---- TOK-2 (beyond the design): a missing token is an error, never a default ---------------------------
+//
+// The last line of a cut file is short. On the side of a len(tokens) test where the line is *short*
+// (the side that does not prove a lower bound on len), the decoder must not manufacture the datum:
+//  (a) no phi joins a value parsed from the tokens with a constant when the constant arrives from the
+//      short side (`w := 1.0; if wOffset < len(buf) { w = parse(buf[wOffset]) }`);
+//  (b) a helper that returns (value, …, error) and is handed the tokens does not return a constant value
+//      with a nil error from the short side (`if column >= len(buf) { return 0, nil }`).
+// Skipping an optional column altogether (no value produced: pts intensity / colour) is not a substitution
+// and is not reported.
+
+func constLike(v ssa.Value, d int) bool {
+	if d > 4 {
+		return false
+	}
+	switch x := v.(type) {
+	case *ssa.Const:
+		return true
+	case *ssa.Convert:
+		return constLike(x.X, d+1)
+	case *ssa.ChangeType:
+		return constLike(x.X, d+1)
+	case *ssa.Phi:
+		for _, e := range x.Edges {
+			if e != x && !constLike(e, d+1) {
+				return false
+			}
+		}
+		return true
+	}
+	return false
+}
+
+// tokenData: is v computed from an element of the token list tok (or by a call that is handed the list)?
+func tokenData(v ssa.Value, tok map[ssa.Value]bool, d int, seen map[ssa.Value]bool) bool {
+	if v == nil || d > 10 || seen[v] {
+		return false
+	}
+	seen[v] = true
+	switch x := v.(type) {
+	case *ssa.Const, *ssa.Global, *ssa.Parameter, *ssa.Function, *ssa.Builtin, *ssa.FreeVar:
+		return false
+	case *ssa.IndexAddr:
+		if tok[x.X] {
+			return true
+		}
+	case *ssa.Index:
+		if tok[x.X] {
+			return true
+		}
+	case *ssa.Call:
+		if ssau.Builtin(x) == "" {
+			for _, arg := range x.Call.Args {
+				if tok[arg] {
+					return true
+				}
+			}
+		} else if ssau.Builtin(x) == "len" {
+			return false
+		}
+	}
+	in, ok := v.(ssa.Instruction)
+	if !ok {
+		return false
+	}
+	var buf [8]*ssa.Value
+	for _, op := range in.Operands(buf[:0]) {
+		if *op != nil && tokenData(*op, tok, d+1, seen) {
+			return true
+		}
+	}
+	return false
+}
+
+// shortSide: the successor (0/1) of the guard's If on which nothing bounds len() from below.
+func shortSide(g lenGuard) int {
+	// successor 0 is taken when the If's condition is true; the condition is the comparison, negated if g.neg
+	for side := 0; side < 2; side++ {
+		truth := (side == 0) != g.neg
+		if _, proven := lowerBound(g.op, 0, truth); !proven {
+			if (g.op == token.NEQ && truth) || (g.op == token.EQL && !truth) {
+				continue // len != x: not the short side of an ordering test
+			}
+			return side
+		}
+	}
+	return -1
+}
+
+func (t *tokCheck) substScan(v ssa.Value, depth int) {
+	if depth > 6 || t.seenTok[v] {
+		return
+	}
+	t.seenTok[v] = true
+	fn := valueParent(v)
+	if fn != nil {
+		// the token values of this function that alias v
+		tok := map[ssa.Value]bool{v: true}
+		for _, r := range ssau.Refs(v) {
+			if sl, ok := r.(*ssa.Slice); ok && sl.X == v {
+				tok[sl] = true
+			}
+		}
+		for _, g := range lenGuards(v) {
+			t.guards++
+			side := shortSide(g)
+			if side < 0 || t.substAt != "" {
+				continue
+			}
+			ifb := g.ifi.Block()
+			// (a) phi joining token data with a constant that arrives from the short side
+			for _, b := range fn.Blocks {
+				if !ifb.Dominates(b) || b == ifb {
+					continue
+				}
+				for _, in := range b.Instrs {
+					phi, ok := in.(*ssa.Phi)
+					if !ok {
+						break
+					}
+					hasTok, constFromShort := false, false
+					for i, e := range phi.Edges {
+						if tokenData(e, tok, 0, map[ssa.Value]bool{}) {
+							hasTok = true
+							continue
+						}
+						if constLike(e, 0) && i < len(b.Preds) && edgeSide(g.ifi, b.Preds[i], b) == side {
+							constFromShort = true
+						}
+					}
+					if hasTok && constFromShort && t.substAt == "" {
+						t.substAt = "at " + t.a.p.Pos(ssau.PosOf(phi)) + " the variable '" + nameOfPhi(phi) + "' takes a constant instead of the value parsed from the line when the test at " +
+							t.a.p.Pos(blockPos(ifb)) + " finds the line short"
+					}
+				}
+			}
+			// (b) (value, …, error) helper answering a constant with a nil error from the short side
+			if t.substAt == "" && fn.Signature.Results().Len() >= 2 {
+				fi := t.a.info(fn)
+				if fi.errRes >= 0 {
+					e := t.a.newExplorer(fi, modeNN)
+					st := newState()
+					e.refine(g.ifi.Cond, side == 0, st)
+					e.push(ifb.Succs[side], 0, ifb, st)
+					e.run()
+					for _, br := range e.badReturns {
+						if br.what != avNil {
+							continue
+						}
+						for i, res := range br.ret.Results {
+							if i != fi.errRes && constLike(res, 0) && t.substAt == "" {
+								t.substAt = "the helper " + fi.name + " returns a constant with a nil error at " + t.a.p.Pos(posOfReturn(br.ret)) +
+									" when the test at " + t.a.p.Pos(blockPos(ifb)) + " finds the line short"
+							}
+						}
+					}
+				}
+			}
+		}
+	}
+	// follow the tokens: re-slices, phis, helpers
+	for _, r := range ssau.Refs(v) {
+		switch r := r.(type) {
+		case *ssa.Slice:
+			if r.X == v {
+				t.substScan(r, depth+1)
+			}
+		case *ssa.Phi:
+			t.substScan(r, depth+1)
+		case *ssa.Call:
+			if ssau.Builtin(r) != "" {
+				continue
+			}
+			cc := r.Common()
+			for k, arg := range cc.Args {
+				if arg != v {
+					continue
+				}
+				var callees []*ssa.Function
+				off := 0
+				if cc.IsInvoke() {
+					off = 1
+					if t.a.inScope(cc.Method) {
+						callees = t.a.implsOf(cc.Method)
+					}
+				} else if f := cc.StaticCallee(); f != nil && f.Pkg != nil && t.a.scopePkg[f.Pkg.Pkg] {
+					callees = []*ssa.Function{f}
+				}
+				for _, f := range callees {
+					if f.Blocks != nil && k+off < len(f.Params) {
+						t.substScan(f.Params[k+off], depth+1)
+					}
+				}
+			}
+		}
+	}
+}
+
+// edgeSide: on which side of the If does the CFG edge pred->b lie (-1: both / neither)?
+func edgeSide(ifi *ssa.If, pred, b *ssa.BasicBlock) int {
+	ib := ifi.Block()
+	if pred == ib {
+		switch {
+		case ib.Succs[0] == b && ib.Succs[1] != b:
+			return 0
+		case ib.Succs[1] == b && ib.Succs[0] != b:
+			return 1
+		}
+		return -1
+	}
+	return sideOf(ifi, pred)
+}
+
+func valueParent(v ssa.Value) *ssa.Function {
+	switch x := v.(type) {
+	case ssa.Instruction:
+		return x.Parent()
+	case *ssa.Parameter:
+		return x.Parent()
+	}
+	return nil
+}
+
 func (a *analysis) tok1(fi *fnInfo, add func(rule, construct string, pos token.Pos, v ob.Verdict, msg string, facts ...string)) {
 	n := 0
 	ssau.AllInstrs(fi.fn, func(in ssa.Instruction) {
@@ -634,7 +860,16 @@ func (a *analysis) tok1(fi *fnInfo, add func(rule, construct string, pos token.P
 		}
 		n++
 		key := fi.name + "→tokens#" + itoa(n)
-		t := &tokCheck{a: a, memo: map[*ssa.Parameter]string{}, busy: map[*ssa.Parameter]bool{}}
+		t := &tokCheck{a: a, memo: map[*ssa.Parameter]string{}, busy: map[*ssa.Parameter]bool{}, seenTok: map[ssa.Value]bool{}}
+		t.substScan(c, 0)
+		if t.substAt != "" {
+			add("TOK-2", key, ssau.PosOf(c), ob.Violation,
+				"a constant is substituted for a token that is missing from the line: "+t.substAt+" — the last line of a file cut at a token boundary is accepted with a made-up value instead of being rejected",
+				"token list split from (*bufio.Scanner).Text()", "length tests examined: "+itoa(t.guards))
+		} else {
+			add("TOK-2", key, ssau.PosOf(c), ob.Holds, "", "token list split from (*bufio.Scanner).Text()",
+				"length tests examined: "+itoa(t.guards)+"; on the short side of none is a constant joined with parsed data or returned with a nil error")
+		}
 		d := t.unguarded(c, 0)
 		if t.copies > 0 {
 			ckey := fi.name + "→tokens#" + itoa(n) + "/copy"
